@@ -43,7 +43,7 @@ def _case(draw):
                      mags=['mixed', 'mixed', 'mixed', 'transparent', 'mixed', 'saturated', 'mixed']))
     w['ktables'] = draw(st.sampled_from([False, True, False]))
     if w['ktables'] and draw(st.booleans()):
-        kinds = ['warped-same-ends', 'near-same-spacing', 'warped-same-ends']            # aim correlated-k worlds at look-alike grids
+        kinds = ['warped-same-ends', 'warped-same-ends', 'warped-same-ends']            # aim correlated-k worlds at look-alike grids
     if obs[1] > 0.4:
         # constant-resolving-power observations need a native grid spanning well over a factor two in wavenumber
         w['wn0'] = min(w['wn0'], w['dwn'] * n0 / 4.0)
